@@ -110,7 +110,8 @@ def gen_tree(rng: random.Random, kn: Knobs):
             # keys that are string prefixes of their siblings (zone / zone2, r1 / r10): id-prefix tests
             # must not confuse them with descendants
             base = rng.choice(["z", "zone", "r1", "ab", "q"])
-            pool = [base, base + "2", base + "20", base + "x", base[:1] + "_" + base]
+            # ... and keys that are string SUFFIXES of a sibling (zone / xzone): `stateIn zone` names whole segments
+            pool = [base, base + "2", base + "20", base + "x", base[:1] + "_" + base, "x" + base]
             keys = rng.sample(pool, n)
         else:
             keys = [f"s{my}_{i}" for i in range(n)]
@@ -172,7 +173,8 @@ def gen_guard(rng, kn, paths, depth=0):
         return {"type": op, "params": {"children": kids}}
     if r < kn.p_composite_guard + kn.p_statein and paths:
         p = rng.choice(paths)
-        spell = rng.choice([_abs(p), _abs(p)[1:]])
+        # full id with / without '#', or only the last one or two segments (a relative name)
+        spell = rng.choice([_abs(p), _abs(p)[1:], _abs(p)[1:], ".".join(p[-1:]), ".".join(p[-2:])])
         return {"type": "stateIn", "params": rng.choice([{"state": spell}, {"value": spell}])}
     g = rng.choice(GUARDS)
     return g if rng.random() < 0.7 else {"type": g}
